@@ -29,6 +29,11 @@ impl From<core::convert::Infallible> for Error {
     }
 }
 
+#[derive(Clone, Copy, Debug, PartialEq, Eq)]
+pub enum InvokeError {
+    Abort,
+    Contract(u32),
+}
 pub const T_VOID: u8 = 0;
 pub const T_BOOL: u8 = 1;
 pub const T_U32: u8 = 2;
